@@ -2,7 +2,7 @@ SPECIFICATION Spec
 CONSTANTS
   Methods = {"GET", "HEAD", "POST"}
   Statuses = {100, 101, 200, 204, 206, 301, 304, 404, 500}
-  CLSyms = {"0", "3", "03", "5", "8", "max64", "neg", "empty", "alpha", "over64"}
+  CLSyms = {"0", "3", "03", "5", "8", "max64", "neg", "empty", "alpha", "over64", "list-differ", "list-junk"}
   TESyms = {"none", "chunked", "CHUNKED", "identity", "identity,chunked", "identity;chunked", "chunked,identity"}
   MaxCL = 3
 INVARIANT TableOK
